@@ -215,7 +215,9 @@ class AverageLearner(BaseLearner):
             n = self.npoints if real else self.n_requested
         else:
             n = n
-        if n < self.min_npoints:
+        if n < self.min_npoints or self.npoints == 0:
+            # With no data there is no estimate (and `mean` would divide by zero),
+            # even when enough points are pending for `n_requested >= min_npoints`.
             return np.inf
         standard_error = self.std / sqrt(n)
         aloss = standard_error / self.atol
